@@ -95,6 +95,8 @@ def run(rep, tier):
     def bind(env, lex, func):
         env['this'] = Obj('xcmp::Driver', {'lexer': lex}, 'driver')
     robust.rule_handlers(rep, 'R15', idx, 'xcmp', idx.func('xcmp::Driver::runCatchExceptions'), bind)
+    robust.rule_dangling_reference_members(rep, 'R16', idx, ('xcmp::', 'hexasm::'))
+    rule_proc_symbol_key(rep, idx)
     from .. import report as _report
     from . import c14, c11
     rep.rule('R12', '"reports a diagnostic and emits nothing": output files are opened only by the designated writer, and nothing can be '
@@ -197,6 +199,59 @@ def rule_memory_info(rep, idx, rid='R14'):
                             rep.add(rid, k2, True, pos(x) + ' ' + f.qname, 'divisor tested non-zero at %s' % g)
                         else:
                             rep.undecided(rid, k2, 'divisor is neither a constant nor tested against zero on the path to the division', pos(x) + ' ' + f.qname)
+
+
+def rule_proc_symbol_key(rep, idx, rid='R17'):
+    rep.rule(rid, 'a procedure\'s own symbol is looked up under the key it was inserted with: CreateSymbols inserts it under '
+             '(getCurrentScope(), name) while visiting the Proc node, so every visitPre/visitPost(Proc&) that looks up (S, proc.getName()) '
+             'must take S from getCurrentScope() of the same traversal -- with S = the procedure\'s own name a formal or local named like '
+             'the procedure is found instead (lookup prefers the inner scope), the frame is attached to that variable and the real symbol '
+             'keeps a null frame that LowerDirectives dereferences', floor=3)
+
+    def resolve(e, depth=0):
+        e = cast.strip(e)
+        while e.get('kind') in ('ImplicitCastExpr', 'ParenExpr', 'MaterializeTemporaryExpr', 'CXXBindTemporaryExpr', 'ExprWithCleanups',
+                                'CXXConstructExpr', 'CXXFunctionalCastExpr') and len(children(e)) == 1:
+            e = cast.strip(children(e)[0])
+        if e.get('kind') == 'DeclRefExpr' and (e.get('referencedDecl') or {}).get('kind') == 'VarDecl' and depth < 4:
+            d = idx.by_id.get(e['referencedDecl'].get('id'))
+            init = [k for k in children(d)] if d is not None else []
+            if init:
+                return resolve(init[-1], depth + 1)
+        return e
+
+    def is_own_name(e, prm):
+        e = resolve(e)
+        return e.get('kind') == 'CXXMemberCallExpr' and callee_of(e)[1] == 'getName' and callee_of(e)[3] is not None and \
+            cast.decl_ref(callee_of(e)[3]) == prm['id']
+    n = 0
+    for f in idx.all_funcs():
+        if f.body is None or f.name not in ('visitPre', 'visitPost') or len(f.params) != 1 or 'Proc &' not in qt(f.params[0]) or not f.qname.startswith('xcmp::'):
+            continue
+        prm = f.params[0]
+        for c in cast.calls_in(f.body):
+            if callee_of(c)[1] != 'lookup':
+                continue
+            mp = [x for x in cast.calls_in(c) if callee_of(x)[1] == 'make_pair']
+            if not mp:
+                continue
+            a = cast.call_args(mp[0])
+            if len(a) != 2 or not is_own_name(a[1], prm):
+                continue
+            sc = resolve(a[0])
+            key = '%s:%s' % (f.qname, pos(c).split(':')[-1])
+            n += 1
+            if sc.get('kind') == 'CXXMemberCallExpr' and callee_of(sc)[1] == 'getCurrentScope' and \
+                    cast.strip(callee_of(sc)[3] or {'kind': ''}).get('kind') in ('CXXThisExpr', 'ImplicitCastExpr'):
+                rep.add(rid, key, True, pos(c) + ' ' + f.qname, 'scope taken from getCurrentScope()', nontrivial=False)
+            elif is_own_name(a[0], prm):
+                rep.add(rid, key, False, pos(c) + ' ' + f.qname,
+                        'the procedure symbol is looked up in the procedure\'s own scope (%s): for `func twice(val twice)` the formal is found, its '
+                        'symbol gets the frame, and the epilogue of the procedure dereferences the null frame of the real symbol' % 'proc.getName()')
+            else:
+                rep.undecided(rid, key, 'scope expression of the lookup is neither getCurrentScope() nor the procedure name', pos(c) + ' ' + f.qname)
+    if n == 0:
+        raise AnalysisBroken('no lookup of a procedure\'s own symbol found in visitPre/visitPost(Proc&) (confirmed: 3)')
 
 
 def _nonzero_guard(f, div):
